@@ -44,7 +44,7 @@ func (h hdr) text() string {
 	for _, r := range h.Revs {
 		s += "revision " + r + "; "
 	}
-	return s + fmt.Sprintf("leaf mark%d { type string; } }", h.ID)
+	return s + fmt.Sprintf("leaf mark%d { type string; } identity idm; typedef tdm { type string; units \"u%d\"; } }", h.ID, h.ID)
 }
 
 func allPerms(n int) [][]int {
@@ -88,9 +88,9 @@ func genHeaders(seed, c int64) ([]hdr, hdr, string) {
 	}
 	// an importer that names a revision and one that does not
 	imp := hs[r.Intn(len(hs))]
-	importer := fmt.Sprintf("module u { namespace \"urn:u\"; prefix u; import %s { prefix x; } }", imp.Name)
+	importer := fmt.Sprintf("module u { namespace \"urn:u\"; prefix u; import %s { prefix x; } identity uy { base x:idm; } leaf ul { type identityref { base x:idm; } } leaf ut { type x:tdm; } }", imp.Name)
 	if imp.latest() != "" && r.Intn(2) == 0 {
-		importer = fmt.Sprintf("module u { namespace \"urn:u\"; prefix u; import %s { prefix x; revision-date %s; } }", imp.Name, imp.latest())
+		importer = fmt.Sprintf("module u { namespace \"urn:u\"; prefix u; import %s { prefix x; revision-date %s; } identity uy { base x:idm; } leaf ul { type identityref { base x:idm; } } leaf ut { type x:tdm; } }", imp.Name, imp.latest())
 	}
 	return hs, imp, importer
 }
@@ -324,6 +324,26 @@ func checkHeaders(j *job.Job, s *job.Sink, c int64, hs []hdr, imp hdr, importer 
 				u := ms.Modules["u"]
 				if pm := yang.FindModuleByPrefix(u, "x"); pm == nil || len(pm.Leaf) == 0 || pm.Leaf[0].Name != fmt.Sprintf("mark%d", want.ID) {
 					bad("prefix-denotes-wrong-revision", fmt.Sprintf("load order %v: %s: FindModuleByPrefix(u, x) is not module %d", p, importer, want.ID), nil)
+				}
+				// what the importer says through its prefix - an identity base, a type - is
+				// looked up in the module the import denotes, not in another revision of it
+				if got != nil && len(got.Identity) == 1 && strings.Contains(importer, "identity uy") {
+					ue0 := yang.ToEntry(ms.Modules["u"])
+					ul, ut := ue0.Dir["ul"], ue0.Dir["ut"]
+					switch {
+					case ul == nil || ul.Type == nil || ul.Type.IdentityBase != got.Identity[0]:
+						bad("identity-binds-wrong-revision", fmt.Sprintf("load order %v: %s: the base of leaf ul is not the identity idm of module %d", p, importer, want.ID), nil)
+					case len(got.Identity[0].Values) != 1 || got.Identity[0].Values[0].Name != "uy":
+						bad("identity-binds-wrong-revision", fmt.Sprintf("load order %v: %s: idm of module %d lists %d derived identities, uy is derived from it", p, importer, want.ID, len(got.Identity[0].Values)), nil)
+					case ut == nil || ut.Type == nil || ut.Type.Units != fmt.Sprintf("u%d", want.ID):
+						bad("typedef-binds-wrong-revision", fmt.Sprintf("load order %v: %s: leaf ut has not the type tdm of module %d", p, importer, want.ID), nil)
+					}
+					for key, m := range ms.Modules {
+						if key != "u" && m != got && len(m.Identity) == 1 && len(m.Identity[0].Values) != 0 {
+							bad("identity-binds-wrong-revision", fmt.Sprintf("load order %v: %s: idm of %s lists derived identities, nothing is derived from it", p, importer, key), nil)
+						}
+					}
+					s.Count("identity_and_typedef_bindings_checked", 1)
 				}
 				// every node of every loaded revision belongs to the module of that name,
 				// however many revisions of it are loaded (C12)
